@@ -16,9 +16,9 @@ def ddx(e, x):
     def d(t):
         k = t.get_id()
         if k in cache:
-            return cache[k]
+            return cache[k][1]
         r = _d(t)
-        cache[k] = r
+        cache[k] = (t, r)       # keep t alive: ids are reused after GC
         return r
 
     def _d(t):
